@@ -434,6 +434,11 @@ type event struct {
 	at    time.Duration
 	class string // reply | reject | timeout | closed | ctx
 	ti    *txInfo
+	// opt: the event MAY complete the call but need not — a reply or reject that reaches the library
+	// after the application's Close was issued and before the socket is closed (the courtesy Separate
+	// of a graceful Close can block for 500 ms on a closed peer window): the connection is no longer
+	// Selected, so the frame is not routed, yet a library that still handed it over would be right too
+	opt bool
 }
 
 func errClass(err error) string {
@@ -510,6 +515,15 @@ func (h *harness) final(reason string) {
 		return end
 	}
 
+	// closeCall: the instant the application's Close was issued, if this connection was open then
+	closeCall := func(c *refhsms.Conn) time.Duration {
+		if h.closedAt > 0 && h.closedAt >= c.OpenedAt {
+			return h.closedAt
+		}
+
+		return -1
+	}
+
 	if reason != "done" {
 		for _, c := range h.calls {
 			if !c.Done {
@@ -581,16 +595,20 @@ func (h *harness) final(reason string) {
 			if at < 0 || at < tw {
 				continue
 			}
+			opt := false
+			if cc := closeCall(p.c); cc >= 0 && at > cc {
+				opt = true
+			}
 			switch ti.kind {
 			case "reply":
-				evs = append(evs, event{at, "reply", ti})
+				evs = append(evs, event{at, "reply", ti, opt})
 			case "reject":
-				evs = append(evs, event{at, "reject", ti})
+				evs = append(evs, event{at, "reject", ti, opt})
 			}
 		}
-		evs = append(evs, event{tw + h.sc.T3, "timeout", nil})
+		evs = append(evs, event{tw + h.sc.T3, "timeout", nil, false})
 		if ge := genEnd(p.c); ge >= 0 {
-			evs = append(evs, event{ge, "closed", nil})
+			evs = append(evs, event{ge, "closed", nil, false})
 		}
 		if c.CtxAt >= 0 {
 			// the write is not bound by the caller's context: a context that ends while the primary is
@@ -599,10 +617,28 @@ func (h *harness) final(reason string) {
 			if at < tw {
 				at = tw
 			}
-			evs = append(evs, event{at, "ctx", nil})
+			evs = append(evs, event{at, "ctx", nil, false})
 		}
 		sort.SliceStable(evs, func(i, j int) bool { return evs[i].at < evs[j].at })
-		first := evs[0].at
+		// the first event that MUST complete the call; optional ones before it may have done so earlier
+		first := time.Duration(-1)
+		for _, e := range evs {
+			if !e.opt {
+				first = e.at
+
+				break
+			}
+		}
+		if c.TRet < first {
+			for _, e := range evs {
+				if e.opt && e.at == c.TRet {
+					first = e.at // completed by an optional event: judged at that instant
+					w.Probe("completed_by_frame_after_close_call")
+
+					break
+				}
+			}
+		}
 		// the outcome must be justified by an event at the first completing instant
 		var got string
 		var gotTok string
@@ -639,7 +675,7 @@ func (h *harness) final(reason string) {
 		var just []string
 		for _, e := range evs {
 			if e.at != first {
-				break
+				continue
 			}
 			just = append(just, e.class)
 			if e.class != got {
@@ -698,7 +734,7 @@ func (h *harness) final(reason string) {
 		}
 	}
 
-	h.checkRouting(byTokenSys(byToken), returnedTok, genEnd)
+	h.checkRouting(byTokenSys(byToken), returnedTok, genEnd, closeCall)
 	h.checkSysUnique()
 }
 
@@ -728,7 +764,7 @@ func describeEvents(evs []event) string {
 // checkRouting: every well-formed data frame the peer delivered while the session was selected
 // reaches exactly one recipient (a waiting sender, or every handler once, in arrival order);
 // duplicates of an answered transaction may be dropped.
-func (h *harness) checkRouting(_ any, returnedTok map[string]*call, genEnd func(*refhsms.Conn) time.Duration) {
+func (h *harness) checkRouting(_ any, returnedTok map[string]*call, genEnd, closeCall func(*refhsms.Conn) time.Duration) {
 	w := h.w
 	if w.Viol != nil {
 		return
@@ -789,6 +825,9 @@ func (h *harness) checkRouting(_ any, returnedTok map[string]*call, genEnd func(
 			// legal only as a discarded duplicate / late tie for an answered or just-ended transaction
 			if h.mayDiscard(ti, at) {
 				continue
+			}
+			if cc := closeCall(conn); cc >= 0 && at >= cc {
+				continue // delivered after Close was issued: the session is no longer Selected
 			}
 			w.Fail("LOST_MESSAGE", "data frame %s (%s, sys %d) delivered to the library at %v while selected reached no recipient", ti.token, ti.kind, ti.forSys, at)
 
